@@ -65,6 +65,7 @@ impl Fr {
     pub const MODULUS_BIT_SIZE: u32 = 254;
     pub fn from_bigint(r: BigInt<4>) -> Option<Fr> { if lt_limbs(&r.0, &P_LIMBS) { Some(Fr(r)) } else { None } }
     pub fn into_bigint(self) -> BigInt<4> { self.0 }
+    pub fn is_one(&self) -> bool { self.0 .0[0] == 1 && self.0 .0[1] == 0 && self.0 .0[2] == 0 && self.0 .0[3] == 0 }
     pub fn is_zero(&self) -> bool { self.0 .0[0] == 0 && self.0 .0[1] == 0 && self.0 .0[2] == 0 && self.0 .0[3] == 0 }
     pub fn zero() -> Fr { Fr(BigInt::new([0, 0, 0, 0])) }
     pub fn one() -> Fr { Fr(BigInt::new([1, 0, 0, 0])) }
